@@ -1,7 +1,10 @@
 (* C14 -- the formatter for expressions at unlimited width: codegen/ast.rs `impl WriteSource for pr::Expr / pr::ExprKind`
    (needs_parenthesis, write_within: context strength, binary position, unbound_expr / can_bind_left; write_between
-   resets), emitting tokens; `render` turns tokens into the text `write_expr` produces.  The strength / associativity
-   tables are parameters (`ftab`), instantiated from Gen/GenCodegen.v.  Executable definitions only. *)
+   resets; the parentheses of an aliased expression above context strength alias_ctx; the raised context of an aliased
+   callee / named-argument value and of case branches; the parentheses that keep a parameter apart from a following
+   `..`), emitting tokens; `render` turns tokens into the text `write_expr` produces.  The strength / associativity
+   tables and the context constants are parameters (`ftab`), instantiated from Gen/GenCodegen.v.
+   Executable definitions only. *)
 From Coq Require Import List NArith ZArith Bool Arith.
 From PV Require Import Lib.ListX Model.FmtLit Model.FmtPratt.
 Import ListNotations.
@@ -16,6 +19,9 @@ Record ftab := {
   cbl : nat -> bool;            (* can_bind_left, by unary operator *)
   sym_bin : nat -> nat;         (* symbol printed for a binary / unary operator (BinOp / UnOp Display) *)
   sym_un : nat -> nat;
+  alias_ctx : N;                (* Expr::write: an aliased expression is parenthesised when context_strength > this *)
+  noalias_ctx : N;              (* FuncCall arm, no_alias: least context strength of an aliased callee / named value *)
+  case_ctx : N;                 (* SwitchCase::write: least context strength of condition and value *)
 }.
 
 (* WriteOpt restricted to what matters at unlimited width *)
@@ -57,15 +63,48 @@ Section Formatter.
     | GCase => if Nat.even i then TArrow else TComma
     end.
 
+  (* context strength at which the elements of a bracketed list are written: write_between resets it to 0;
+     SwitchCase::write raises it to case_ctx for both sides of `=>` *)
+  Definition item_ctx (k : gkind) : N := match k with GCase => case_ctx F | _ => 0 end.
+
+  Definition is_alias_e (e : expr) : bool := match e with EAlias _ _ => true | _ => false end.
+  (* no_alias: callee and named-argument values cannot carry a bare alias *)
+  Definition no_alias (x : expr) (ctx : N) : N := if is_alias_e x then N.max ctx (noalias_ctx F) else ctx.
+
+  (* `start_text.ends_with(')')` *)
+  Definition ends_close (ts : list tok) : bool :=
+    match last ts TComma with TClose GPipe => true | _ => false end.
+  Definition is_param (e : expr) : bool := match e with EAtom (AParam _) => true | _ => false end.
+
   Fixpoint fmt (e : expr) (st : state) {struct e} : list tok :=
     let '(ctx, pos, unb) := st in
     match e with
-    | EAlias n x => TAlias n :: fmt x (ctx, pos, false)
-    | ENamed n x => TNamed n :: fmt x (ctx, pos, unb)
+    | EAlias n x =>
+        (* Expr::write: an aliased expression as an operand is written in parentheses, at context strength 0 *)
+        if alias_ctx F <? ctx then TOpen GPipe :: TAlias n :: fmt x (0, pos, false) ++ [TClose GPipe]
+        else TAlias n :: fmt x (ctx, pos, false)
+    | ENamed n x => TNamed n :: fmt x (no_alias x ctx, pos, unb)
     | _ =>
       let w := needs st e in
       let ctx' := if w then 0 else ctx in
       let unb' := if w then false else unb in
+      (* the start of a range (Range arm): a parameter, or a unary operator applied to one, directly in front of
+         `..` would lex as one parameter token (`$a..b`): it gets parentheses unless the text already ends in one *)
+      let start : list tok :=
+        match e with
+        | ERng l _ | ERngL l =>
+            let ts := fmt l (N.max ctx' (bs_rng F), PUnspec, unb') in
+            if ends_close ts then ts else
+            match (match l with EAlias _ k => k | _ => l end) with       (* start.kind *)
+            | EAtom (AParam _) => TOpen GPipe :: ts ++ [TClose GPipe]
+            | EUn u x =>
+                if is_param (match x with EAlias _ k => k | _ => x end)
+                then TS (sym_un F u) true :: TOpen GPipe :: fmt x (N.max ctx' (bs_un F), PUnspec, unb') ++ [TClose GPipe]
+                else ts
+            | _ => ts
+            end
+        | _ => []
+        end in
       wrap w
         match e with
         | EAtom a => [TA a]
@@ -74,15 +113,13 @@ Section Formatter.
             fmt l (c, PLeft, unb') ++ TS (sym_bin F o) false :: fmt r (c, PRight, unb')
         (* ExprKind::write resets binary_position for every node that is not Binary (commit a318687) *)
         | EUn u x => TS (sym_un F u) true :: fmt x (N.max ctx' (bs_un F), PUnspec, unb')
-        | ERng l r =>
-            let c := N.max ctx' (bs_rng F) in
-            fmt l (c, PUnspec, unb') ++ TRg true true :: fmt r (c, PUnspec, unb')
-        | ERngL l => fmt l (N.max ctx' (bs_rng F), PUnspec, unb') ++ [TRg true false]
+        | ERng _ r => start ++ TRg true true :: fmt r (N.max ctx' (bs_rng F), PUnspec, unb')
+        | ERngL _ => start ++ [TRg true false]
         | ERngR r => TRg false true :: fmt r (N.max ctx' (bs_rng F), PUnspec, unb')
         | ERng0 => [TRg false false]
         | ECall f args =>
             let c := N.max ctx' (bs_call F) in
-            fmt f (c, PUnspec, unb') ++
+            fmt f (N.max (no_alias f ctx') (bs_call F), PUnspec, unb') ++
             (fix go (l : list expr) : list tok :=
                match l with [] => [] | a :: t => fmt a (c, PUnspec, true) ++ go t end) args
         | EGroup k es =>
@@ -90,8 +127,8 @@ Section Formatter.
             (fix go (l : list expr) (i : nat) : list tok :=
                match l with
                | [] => []
-               | [a] => fmt a (0, PUnspec, false)
-               | a :: t => fmt a (0, PUnspec, false) ++ sep_of k i :: go t (S i)
+               | [a] => fmt a (item_ctx k, PUnspec, false)
+               | a :: t => fmt a (item_ctx k, PUnspec, false) ++ sep_of k i :: go t (S i)
                end) es O ++ [TClose k]
         | EAlias _ _ | ENamed _ _ => []
         end
@@ -129,7 +166,13 @@ Definition compat (F : ftab) (T : ptab) (nb nu : nat) : bool :=
   forallb (fun o => bs_bin F o <? bs_un F) B && (bs_rng F <=? bs_un F) &&
   forallb (fun o => bs_bin F o <=? bs_rng F) B &&
   (* context strength 0 (inside brackets) never forces parentheses *)
-  forallb (fun o => 0 <? bs_bin F o) B && (0 <? bs_un F) && (0 <? bs_rng F) && (0 <? bs_call F) && (0 <? bs_other F).
+  forallb (fun o => 0 <? bs_bin F o) B && (0 <? bs_un F) && (0 <? bs_rng F) && (0 <? bs_call F) && (0 <? bs_other F) &&
+  (* an aliased expression is parenthesised as operand of a binary / unary operator, as range bound, callee and
+     named-argument value (the parser reads `x = ...` only at the head of a list element or positional argument) ... *)
+  forallb (fun o => alias_ctx F <? bs_bin F o) B && (alias_ctx F <? bs_un F) && (alias_ctx F <? bs_rng F) &&
+  (alias_ctx F <? noalias_ctx F) &&
+  (* ... and stays bare as a positional argument *)
+  (bs_call F <=? alias_ctx F).
 
 (* ------------------------------------------------------------------ text *)
 Record ttab := {
@@ -149,10 +192,17 @@ Section Render.
     else if c =? c_lbrace then [c_lbrace; c_lbrace]
     else if c =? c_rbrace then [c_rbrace; c_rbrace]
     else [c].
+  (* the identifier and the format specifier stand inside a string literal too (commit 4d5b01d): \ -> \\, " -> \" *)
+  Definition in_string (c : N) : str :=
+    if c =? c_bslash then [c_bslash; c_bslash]
+    else if c =? c_dquote then [c_bslash; c_dquote]
+    else [c].
   Definition ipart_text (p : ipart) : str :=
     match p with
     | IStr s => flat_map interp_escape s
-    | IExpr path => c_lbrace :: display_ident (ids R) path ++ [c_rbrace]
+    | IExpr path format =>
+        c_lbrace :: flat_map in_string (display_ident (ids R) path) ++
+        (match format with Some f => 58 :: flat_map in_string f | None => [] end) ++ [c_rbrace]
     end.
 
   Definition literal_text (l : literal) : str :=
